@@ -194,11 +194,24 @@ def main():
         if cplx:
             Ai = rng.randn(n, n) * 0.05
             H = H + 1j * (Ai - Ai.T) / 2
+        blocks = [0, 1]
         if rwa:
+            # ground state | excited band, or three / four blocks (ground
+            # state | one-exciton band | higher bands)
+            if n >= 3 and rng.rand() < 0.6:
+                blocks = [0, 1, int(rng.randint(2, n))]
+                if n == 4 and blocks[2] == 2 and rng.rand() < 0.5:
+                    blocks = [0, 1, 2, 3]
             # the rotating frame is exact only when the blocks are not
             # coupled (as in aggregate Hamiltonians)
-            H[0, 1:] = 0.0
-            H[1:, 0] = 0.0
+            bounds = blocks + [n]
+            blk = numpy.zeros(n, dtype=int)
+            for b in range(len(blocks)):
+                blk[bounds[b]:bounds[b + 1]] = b
+            H[blk[:, None] != blk[None, :]] = 0.0
+            if len(blocks) > 2:
+                # bands are separated by about one optical quantum
+                H[numpy.arange(n), numpy.arange(n)] += blk * (blk > 1) * 0.9
         Ks, rates = [], []
         if relax:
             for k in range(int(rng.randint(1, 3))):
@@ -220,12 +233,22 @@ def main():
             rho0 = B.dot(B.conj().T)
             rho0 /= numpy.trace(rho0)
         Nt = int(rng.randint(5, 40))
-        Heff = H if not rwa else H - numpy.diag(
-            numpy.concatenate([[0.0], numpy.full(n - 1, H[1:, 1:].diagonal(
-            ).mean())]))
+        if rwa:
+            # frame energies: the mean diagonal element of every block
+            womega = numpy.zeros(n)
+            for b in range(len(blocks)):
+                sl = slice(bounds[b], bounds[b + 1])
+                womega[sl] = H.diagonal().real[sl].mean()
+            Heff = H - numpy.diag(womega)
+        else:
+            Heff = H
         gH = 2 * float(numpy.abs(Heff).sum(axis=0).max()) + sum(
             4 * r * numpy.abs(K).max() ** 2 for K, r in zip(Ks, rates))
-        dt = float(10 ** rng.uniform(-1.3, -0.3)) / max(gH, 1e-9)
+        # (a generator that vanishes in the rotating frame, e.g. one state
+        # per block, does not limit the step; the frame phases w t must
+        # still be representable)
+        dt = float(10 ** rng.uniform(-1.3, -0.3)) / max(
+            gH, 0.01 * float(numpy.abs(H).max()))
         form = "operators" if (relax and rng.rand() < 0.5) else "tensor"
         gam = None
         if pdeph:
@@ -234,7 +257,7 @@ def main():
             numpy.fill_diagonal(gam, 0.0)
         rp = dict(kind="sampled", seed=ck.seed, sample=s, n=n, order=order,
                   rwa=rwa, relax=relax, form=form, pdeph=pdeph, Nt=Nt, dt=dt,
-                  complex_H=bool(cplx))
+                  complex_H=bool(cplx), blocks=blocks if rwa else None)
         with ck.guarded("sampled", "propagate", rp, rp):
             # (the axis need not start at zero)
             # (with the rotating frame the start stays at zero: the frame
@@ -243,7 +266,7 @@ def main():
             ta = qr.TimeAxis(t0, Nt, dt)
             ham = qr.Hamiltonian(data=H.copy())
             if rwa:
-                ham.set_rwa([0, 1])
+                ham.set_rwa(list(blocks))
             kwargs = {}
             if relax:
                 ops = [qr.qm.Operator(data=K.copy()) for K in Ks]
@@ -295,6 +318,22 @@ def main():
                                  smp, rpp)
                 if relax and mineig < -(10 * bound + 1e-10):
                     ck.violation("positive-semidefinite", "sampled", smp, rpp)
+                if rwa:
+                    # laboratory frame -> rotating frame: the result follows
+                    # the generator with the frame energies subtracted
+                    ev.convert_to_RWA(ham)
+                    dR = numpy.array(ev.data)
+                    refR = numpy.array([
+                        scipy.linalg.expm(LmR * (t - ta.data[0])).dot(
+                            rho0.reshape(n * n)).reshape(n, n)
+                        for t in ta.data])
+                    errR = float(numpy.abs(dR - refR).max())
+                    ck.case("to-rotating-frame", (s, nref), sample=dict(
+                        rp, nref=nref, err=errR, bound=bound))
+                    if errR > 10 * bound + 1e-10 or not ev.is_in_rwa:
+                        ck.violation("follows-generator",
+                                     "sampled:to-rotating-frame",
+                                     dict(smp, err_rwa=errR), rpp)
                 if not relax:
                     pur = float(max(abs(numpy.trace(x.dot(x)) -
                                         numpy.trace(rho0.dot(rho0)))
@@ -318,7 +357,7 @@ def main():
             taf = qr.TimeAxis(t0, (Nt - 1) * kref + 1, dt / kref)
             hamf = qr.Hamiltonian(data=H.copy())
             if rwa:
-                hamf.set_rwa([0, 1])
+                hamf.set_rwa(list(blocks))
             kwf = {}
             if relax:
                 opsf = [qr.qm.Operator(data=K.copy()) for K in Ks]
